@@ -11,7 +11,7 @@ use board::{enclosed, trace, BOARD};
 use proptest::prelude::*;
 use serde::{Deserialize, Serialize};
 
-pub const NKINDS: u8 = 12;
+pub const NKINDS: u8 = 13;
 
 /// raw point: (use_pool, x, y, pool_index)
 pub type RawPt = (u8, u8, u8, u8);
@@ -28,7 +28,7 @@ pub fn raw_geom() -> impl Strategy<Value = RawGeom> {
     (
         0..NKINDS,
         proptest::collection::vec(proptest::bool::weighted(0.45), BOARD * BOARD),
-        proptest::collection::vec((0u8..=255, 0u8..13, 0u8..13, 0u8..=255), 1..9),
+        proptest::collection::vec((0u8..=255, 0u8..13, 0u8..13, 0u8..=255), 1..10),
         any::<u32>(),
     )
         .prop_map(|(kind, cells, pts, flags)| RawGeom { kind, cells, pts, flags })
@@ -135,7 +135,7 @@ pub fn build_geom(raw: &RawGeom, g: usize, pool: &[C], other_cells: Option<&[boo
             1 => G::MultiPoint(vec![]),
             3 => G::LineString(vec![]),
             4 => G::MultiLineString(vec![]),
-            5 | 10 | 11 => G::Polygon(Poly::new(vec![], vec![])),
+            5 | 10 | 11 | 12 => G::Polygon(Poly::new(vec![], vec![])),
             6 => G::MultiPolygon(vec![]),
             9 => G::Coll(vec![]),
             _ => return None,
@@ -287,6 +287,41 @@ pub fn build_geom(raw: &RawGeom, g: usize, pool: &[C], other_cells: Option<&[boo
             r.push(r[0]);
             Some(G::Polygon(Poly::new(r, vec![])))
         }
+        12 => {
+            // convex shell with a triangular hole whose vertices are drawn from the shell's own feature
+            // pool (vertices, lattice points on its edges) or its interior: holes touching the shell at a
+            // vertex or in the middle of an edge, non-rectilinear. Validity is decided by the domain filter.
+            let shell_pts: Vec<C> = raw.pts.iter().take(5).map(|p| (lattice_coord(p.1, g), lattice_coord(p.2, g))).collect();
+            let h = crate::refgeom::measure::hull(&shell_pts);
+            if h.len() < 3 {
+                return None;
+            }
+            let mut ext = h;
+            ext.push(ext[0]);
+            let shell = G::Polygon(Poly::new(ext.clone(), vec![]));
+            let mut pool2 = feature_pool(&shell);
+            let loc = crate::refgeom::Located::new(&shell);
+            if let Some(((x0, y0), (x1, y1))) = shell.bbox() {
+                for x in x0..=x1 {
+                    for y in y0..=y1 {
+                        if loc.locate(crate::exact::HP::int((x, y))) == crate::refgeom::Loc::I {
+                            pool2.push((x, y));
+                        }
+                    }
+                }
+            }
+            if pool2.is_empty() || raw.pts.len() < 8 {
+                return None;
+            }
+            let hp: Vec<C> = raw.pts[5..8].iter().map(|p| pool2[(p.3 as usize * pool2.len()) >> 8]).collect();
+            let hh = crate::refgeom::measure::hull(&hp);
+            if hh.len() < 3 {
+                return None;
+            }
+            let mut hole = hh;
+            hole.push(hole[0]);
+            Some(G::Polygon(Poly::new(ext, vec![hole])))
+        }
         _ => {
             // star-shaped ring around the first point (angular sort), possibly with a convex hole
             let d = distinct_prefix(&pts, 8);
@@ -391,7 +426,7 @@ pub fn geom_strategy() -> impl Strategy<Value = G> {
 
 /// valid areal geometry (Polygon or MultiPolygon only)
 pub fn areal_strategy() -> impl Strategy<Value = G> {
-    (raw_geom(), 1usize..=BOARD, mat_strategy(), prop_oneof![Just(5u8), Just(6u8), Just(10u8), Just(11u8)]).prop_filter_map(
+    (raw_geom(), 1usize..=BOARD, mat_strategy(), prop_oneof![Just(5u8), Just(6u8), Just(10u8), Just(11u8), Just(12u8)]).prop_filter_map(
         "out of domain",
         |(mut r, g, m, kind)| {
             r.kind = kind;
